@@ -471,6 +471,8 @@ class StmtMixin:
                 yield st1, ("raise", it.exc)
                 continue
             from .vals import Reversed
+            if isinstance(it, Val) and isinstance(it.ty, TMap):
+                it = Val(TSet(it.ty.key), [it.terms[0]])       # iterating a dict iterates its keys
             if isinstance(it, PyList):
                 yield from self._unrolled(node, it.items, st1)
             elif isinstance(it, Reversed):
